@@ -123,3 +123,50 @@ mod test {
         MetricItem::from_string(metric_item).unwrap();
     }
 }
+
+/// Constructor and field access for the verification harness (`--cfg sentinel_verif`).
+#[cfg(sentinel_verif)]
+impl MetricItem {
+    #[allow(clippy::too_many_arguments)]
+    pub fn verif_new(
+        resource: String,
+        resource_type: u8,
+        timestamp: u64,
+        pass_qps: u64,
+        block_qps: u64,
+        complete_qps: u64,
+        error_qps: u64,
+        avg_rt: u64,
+        occupied_pass_qps: u64,
+        concurrency: u32,
+    ) -> Self {
+        MetricItem {
+            resource,
+            resource_type: resource_type.into(),
+            timestamp,
+            pass_qps,
+            block_qps,
+            complete_qps,
+            error_qps,
+            avg_rt,
+            occupied_pass_qps,
+            concurrency,
+        }
+    }
+
+    #[allow(clippy::type_complexity)]
+    pub fn verif_fields(&self) -> (String, u8, u64, u64, u64, u64, u64, u64, u64, u32) {
+        (
+            self.resource.clone(),
+            self.resource_type as u8,
+            self.timestamp,
+            self.pass_qps,
+            self.block_qps,
+            self.complete_qps,
+            self.error_qps,
+            self.avg_rt,
+            self.occupied_pass_qps,
+            self.concurrency,
+        )
+    }
+}
